@@ -17,7 +17,7 @@ from rv import ToolError, log
 
 def mc(backend, maxlen, emit):
     key = rv.spec_hash("handles|%s|%d|%s" % (backend, maxlen, emit))[:16]
-    cf = os.path.join(rv.ensure_dir(os.path.join(rv.WORK, "mc_cache")), "handles-%s.json" % key)
+    cf = os.path.join(rv.ensure_dir(rv.MC_CACHE), "handles-%s.json" % key)
     if os.path.exists(cf):
         return json.load(open(cf))
     wd = os.path.join(rv.WORK, "mc", "handles-%s-%d-%s" % (backend, maxlen, emit))
